@@ -916,12 +916,62 @@ def install(world):
     os.access = fs.access
     os.readlink = fs.readlink
 
+    class SimDirEntry:
+        def __init__(self, d, name):
+            self.name = name
+            self.path = os.path.join(d, name)
+
+        def __fspath__(self):
+            return self.path
+
+        def stat(self, *, follow_symlinks=True):
+            return fs.stat(self.path, follow_symlinks=follow_symlinks)
+
+        def is_dir(self, *, follow_symlinks=True):
+            try:
+                return statmod.S_ISDIR(self.stat(follow_symlinks=follow_symlinks).st_mode)
+            except OSError:
+                return False
+
+        def is_file(self, *, follow_symlinks=True):
+            try:
+                return statmod.S_ISREG(self.stat(follow_symlinks=follow_symlinks).st_mode)
+            except OSError:
+                return False
+
+        def is_symlink(self):
+            try:
+                return statmod.S_ISLNK(fs.lstat(self.path).st_mode)
+            except OSError:
+                return False
+
+        def inode(self):
+            return self.stat(follow_symlinks=False).st_ino
+
+    class SimScandir:
+        def __init__(self, d, names):
+            self._it = iter([SimDirEntry(d, n) for n in names])
+
+        def __iter__(self):
+            return self
+
+        def __next__(self):
+            return next(self._it)
+
+        def __enter__(self):
+            return self
+
+        def __exit__(self, *a):
+            return False
+
+        def close(self):
+            pass
+
     def _scandir(path='.'):
         n = fs.norm(path) if not isinstance(path, int) else None
         if n is None or not fs.inside(n):
             return _real['scandir'](path)
-        fs.gaps.append(('scandir', n))
-        raise OSError(errno.ENOSYS, 'scandir on simulated path is not modelled', n)
+        return SimScandir(os.fspath(path), fs.listdir(path))     # same (simulated) order as os.listdir
     os.scandir = _scandir
     builtins.open = fs.open
     io.open = fs.open
